@@ -2,12 +2,12 @@ import LdarModel.Model.Crew
 import LdarModel.Driver.Proto
 /-
 Driver for the survey step / crew day model.
-  step <R> <S> <T> <P> <stationary> <workable> <inProgress> <travelSoFar>
+  step <R> <S> <T> <P> <stationary> <workable> <inProgress> <travelSoFar> [<staleToday>]
      -> <rem> <surveyed> <complete> <last> <visited> <travel> <today> | <report: surveyed today travel complete inProgress>
   multi <S> <stationary> [[R,T,workable,served],...]
      -> per day  surveyed:today:travel:complete:inProgress:minutesToday  joined by ;
   day <scale> <stationary> <perSite> <unitCost> <budget> <crews> <considerWeather>
-      [tLo,tHi,wLo,wHi,pLo,pHi] [[site,S,P,inProgress,travelSoFar,T,siteCost,temp,wind,precip],...]
+      [tLo,tHi,wLo,wHi,pLo,pHi] [[site,S,P,inProgress,travelSoFar,T,siteCost,temp,wind,precip[,staleToday]],...]
      -> <cost> <visited> <travel> <survey> <wpTravel>
         | site:crew:surveyed:today:travel:complete:inProgress:visited:last:travelCharged;...
         | id:rem:deployed:spent:home,...
@@ -29,6 +29,12 @@ def parseReq (s : String) : Option Req := do
     if site < 0 then none else
     some { site := site.toNat, S := sS, siteCost := sc,
            rep := { surveyed := p, travel := trav, inProgress := ip ≠ 0 }, T := t,
+           wx := { temp := wt, wind := ww, precip := wp } }
+  | [site, sS, p, ip, trav, t, sc, wt, ww, wp, td] =>
+    -- 11th field: the stale time_surveyed_current_day a carried-over report still holds
+    if site < 0 then none else
+    some { site := site.toNat, S := sS, siteCost := sc,
+           rep := { surveyed := p, today := td, travel := trav, inProgress := ip ≠ 0 }, T := t,
            wx := { temp := wt, wind := ww, precip := wp } }
   | _ => none
 
@@ -61,6 +67,13 @@ def step (_ : Unit) (toks : List String) : Unit × String :=
       let rep := applyStep { surveyed := p, travel := trav, inProgress := ip } o
       ((), s!"{o.rem} {o.surveyed} {showBool o.complete} {showBool o.last} {showBool o.visited} {o.travel} {o.today} | {showReport rep " "}")
     | _, _, _, _, _, _, _, _ => ((), "bad-op")
+  | ["step", r, s, t, p, st, w, ip, trav, td] =>
+    match int? r, int? s, int? t, int? p, bool? st, bool? w, bool? ip, int? trav, int? td with
+    | some r, some s, some t, some p, some st, some w, some ip, some trav, some td =>
+      let o := surveyStep r s t p st w
+      let rep := applyStep { surveyed := p, today := td, travel := trav, inProgress := ip } o
+      ((), s!"{o.rem} {o.surveyed} {showBool o.complete} {showBool o.last} {showBool o.visited} {o.travel} {o.today} | {showReport rep " "}")
+    | _, _, _, _, _, _, _, _, _ => ((), "bad-op")
   | ["multi", s, st, days] =>
     match int? s, bool? st, listOf? parseDayIn days with
     | some s, some st, some days => ((), ";".intercalate (runMulti st s days))
